@@ -307,6 +307,11 @@ static int flt_load(struct module_data *m, HIO_HANDLE * f, const int start)
 
 	/* See if we have the synth parameters file */
 	am_synth = 0;
+	nt = NULL;
+	/* The file name is only known when loading by path. */
+	if (m->dirname == NULL || m->basename == NULL) {
+		goto no_synth_file;
+	}
 	snprintf(filename, 1024, "%s%s.NT", m->dirname, m->basename);
 	if ((nt = hio_open(filename, "rb")) == NULL) {
 		snprintf(filename, 1024, "%s%s.nt", m->dirname, m->basename);
@@ -321,6 +326,7 @@ static int flt_load(struct module_data *m, HIO_HANDLE * f, const int start)
 		}
 	}
 
+    no_synth_file:
 	tracker = "Startrekker";
 
 	if (nt) {
